@@ -46,10 +46,47 @@ def numpy_physical(d):
     return view
 
 
+def default_virtual_builder(d, buffers):
+    """{"class": "VirtualArray", "generates": <description>, "declare_form": bool, "declare_length": bool,
+        "cache": None|"keep"|"none_mapping", "cache_key": str?}  ->  a VirtualArray with a pure generator"""
+    from akshim import virtual as V
+    from akmodel.core import length_of
+    sub = d["generates"]
+    form = V.form_of(build(strip_virtual(sub))) if d.get("declare_form") else None
+    length = length_of(strip_virtual(sub)) if d.get("declare_length") else None
+    gen = V.ArrayGenerator(lambda: build(sub), form=form, length=length)
+    kind = d.get("cache")
+    cache = None
+    if kind == "keep":
+        mapping = V.MappingProxy()
+        cache = V.ArrayCache(mapping)
+        cache._state.strong = mapping      # ArrayCache only holds a weak reference; tie the mapping's life to the C++ cache object
+    elif kind == "none_mapping":
+        cache = V.ArrayCache(None)
+    return V.VirtualArray(gen, cache, d.get("cache_key"), parameters=d.get("parameters") or None)
+
+
+VIRTUAL_BUILDER = [default_virtual_builder]    # checks push their own builder (generator/cache behaviours) and pop it afterwards
+
+
+def strip_virtual(d):
+    """the description with every VirtualArray wrapper replaced by what it generates"""
+    if d["class"] == "VirtualArray":
+        return strip_virtual(d["generates"])
+    out = dict(d)
+    if "content" in d:
+        out["content"] = strip_virtual(d["content"])
+    if "contents" in d:
+        out["contents"] = [strip_virtual(c) for c in d["contents"]]
+    return out
+
+
 def build(d, buffers=None):
     """description -> layout.  `buffers` (a list) collects every numpy array handed to the library, for purity checks."""
     cls = d["class"]
     params = d.get("parameters") or None
+    if cls == "VirtualArray":
+        return VIRTUAL_BUILDER[-1](d, buffers)
     if cls == "NumpyArray":
         arr = numpy_physical(d)
         if buffers is not None:
@@ -88,6 +125,9 @@ def build(d, buffers=None):
 def describe(layout):
     """layout -> description, read back through the accessors of each class"""
     cls = type(layout).__name__
+    if cls == "VirtualArray":
+        # read by materialising; the node's own parameters do not enter its type (VirtualForm::type ignores them)
+        return describe(layout.array)
     out = {"class": cls}
     params = layout.parameters
     if params:
